@@ -566,6 +566,7 @@ func vfC25HistoryWith(t *testing.T, spaceName, capName string, capacity int, dep
 			others   map[int]bool // distinct other proofs admitted since this proof's last acceptance
 		}
 		var model [3]pstate
+		var leftWindow [3]bool
 		var accLog []string // acceptance sequence: the only thing that changes the gate's state
 
 		forged := 0
@@ -615,6 +616,11 @@ func vfC25HistoryWith(t *testing.T, spaceName, capName string, capacity int, dep
 					return "", false // symmetric bound for backward steps
 				}
 				clk += d
+				for q := range model {
+					if a := clk - stamps[q]; model[q].accepted && (a > vfC25Skew || -a > vfC25Skew) {
+						leftWindow[q] = true // the clock has been outside P's window since P was admitted
+					}
+				}
 				continue
 			}
 			p, wire, mark := ev, "", ""
@@ -643,12 +649,19 @@ func vfC25HistoryWith(t *testing.T, spaceName, capName string, capacity int, dep
 						"P%d (ts=T0%+d) accepted at T0%+d, |now-ts|=%d > skew=%d", p+1, stamps[p]-vfC25T0, clk-vfC25T0, age, vfC25Skew)
 				}
 				if acceptedNow && inWindow && model[p].accepted && len(model[p].others) < effCap {
-					x.Failf("C25:"+sigBase+":replay-accepted:stamp="+vfC25StampNames[p]+":cap="+capName,
+					cls := ""
+					if leftWindow[p] {
+						// only reachable when the clock steps backwards: the clock left the proof's
+						// window (its cache entry may lapse there) and then returned into it
+						cls = ":after-clock-left-the-window-and-came-back"
+					}
+					x.Failf("C25:"+sigBase+":replay-accepted"+cls+":stamp="+vfC25StampNames[p]+":cap="+capName,
 						"P%d (ts=T0%+d) was accepted earlier and is accepted AGAIN at T0%+d while its timestamp is still inside the window (|now-ts|=%d <= skew=%d); only %d other distinct proof(s) were admitted since (capacity %d). log so far (P=admitted, F/R=forged, refused): %v",
 						p+1, stamps[p]-vfC25T0, clk-vfC25T0, vfC25Abs(age), vfC25Skew, len(model[p].others), effCap, accLog)
 				}
 			}
 			if acceptedNow {
+				leftWindow[p] = false
 				model[p] = pstate{accepted: true, others: map[int]bool{}}
 				for q := range model {
 					if q != p && model[q].accepted {
@@ -667,10 +680,10 @@ func vfC25HistoryWith(t *testing.T, spaceName, capName string, capacity int, dep
 	}
 
 	venum.BFS(t, venum.BFSCfg{
-		Name:      spaceName,
-		MaxDepth:  depth,
-		NEvents:   3 + len(vfC25Advances) + 2 + 3,
-		Step:      step,
+		Name:     spaceName,
+		MaxDepth: depth,
+		NEvents:  3 + len(vfC25Advances) + 2 + 3,
+		Step:     step,
 		EventName: func(ev int) string {
 			if ev >= 3 && ev < vfC25EvBadFresh {
 				return fmt.Sprintf("clock%+d", steps[ev-3])
@@ -763,7 +776,7 @@ func TestVerif_C25(t *testing.T) {
 	vfC25History(t, "2", 2, depth)
 	vfC25History(t, "default", 0, depth)
 	// clock histories that are not monotonic (separate small spaces, plain present events only)
-	bdepth := venum.QT(5, 6)
+	bdepth := venum.QT(6, 6)
 	vfC25HistoryWith(t, "clock-steps-cap2", "2", 2, bdepth, vfC25BackSteps, false)
 	vfC25HistoryWith(t, "clock-steps-capdefault", "default", 0, bdepth, vfC25BackSteps, false)
 }
